@@ -1,6 +1,7 @@
 package main
 
 import (
+	"encoding/xml"
 	"strconv"
 	"strings"
 
@@ -40,7 +41,15 @@ func c19Program(g *prog.Gen, idx int) []*prog.Op {
 				o.Keys = append(o.Keys, [2]string{keys[g.R.Intn(len(keys))], ""})
 			}
 			// versioned programs: an entry that names a version in front of (or behind) entries that name none
-			if idx%2 == 1 && g.R.Chance(60) {
+			if idx%2 == 1 && g.R.Chance(35) {
+				// one key three times: without a version (a delete marker), its newest version, that version again
+				// (the repetition fails: the version is gone)
+				k := keys[g.R.Intn(len(keys))]
+				o.Keys = [][2]string{{k, ""}, {k, "@ref"}, {k, "@ref"}}
+				if g.R.Chance(50) {
+					o.Keys = [][2]string{{k, "@ref"}, {k, "@ref"}, {k, ""}}
+				}
+			} else if idx%2 == 1 && g.R.Chance(60) {
 				e := [2]string{keys[g.R.Intn(len(keys))], "@ref"}
 				if g.R.Chance(70) {
 					o.Keys = append([][2]string{e}, o.Keys...)
@@ -76,19 +85,36 @@ func c19VersionOracle(steps []*prog.Step, res *lib.Result, idx int) {
 		bad := ""
 		switch st.Op.Kind {
 		case "deleteObjects":
+			// expected: one record per <Deleted> element of the answer, naming its key and the version id the
+			// entry asked for (the answer's own account of what was deleted; compared with the model elsewhere)
+			want := map[string]int{}
+			var dr struct {
+				Deleted []struct {
+					Key       string `xml:"Key"`
+					VersionId string `xml:"VersionId"`
+				} `xml:"Deleted"`
+			}
+			if xml.Unmarshal(st.Obs.Raw.Body, &dr) != nil {
+				continue
+			}
+			for _, e := range dr.Deleted {
+				want[hexOf(e.Key)+" "+e.VersionId]++
+			}
 			for _, rec := range st.Obs.EventVids {
 				f := strings.SplitN(rec, " ", 3)
 				if len(f) < 3 {
 					continue
 				}
-				ok := false
-				for _, kv := range st.Op.Keys {
-					if hexOf(kv[0]) == f[1] && (kv[1] == f[2] || (kv[1] == "" && f[2] == "null")) {
-						ok = true
-					}
+				if f[2] == "null" && want[f[1]+" null"] == 0 {
+					f[2] = ""
 				}
-				if !ok {
-					bad = "record " + rec + " names a version id the request did not give for that key"
+				want[f[1]+" "+f[2]]--
+			}
+			for k, n := range want {
+				if n > 0 {
+					bad = "no record for the deleted entry (key version) = (" + k + ")"
+				} else if n < 0 {
+					bad = "a record names (key version) = (" + k + "), which is not an entry the request deleted"
 				}
 			}
 		}
